@@ -88,11 +88,10 @@ package reclaim
 //@   loop 1
 //@     modifies *
 //@     invariant [orderSession] jobsOrderByQueues.ssn == ssn
-//@     invariant [tablesExist] forall q in smallestFailedJobsByQueue :: smallestFailedJobsByQueue[q] != nil && allocated(smallestFailedJobsByQueue[q]) && allocated(smallestFailedJobsByQueue[q].representatives)
+//@     invariant [tablesExist] forall q in smallestFailedJobsByQueue :: smallestFailedJobsByQueue[q] != nil && allocated(smallestFailedJobsByQueue[q]) && smallestFailedJobsByQueue[q].representatives != nil && allocated(smallestFailedJobsByQueue[q].representatives)
 //@     invariant [tablesSeparate] forall q1 in smallestFailedJobsByQueue :: forall q2 in smallestFailedJobsByQueue :: q1 != q2 ==> smallestFailedJobsByQueue[q1].representatives != smallestFailedJobsByQueue[q2].representatives
-//@     invariant [tablesWellFormed] forall q in smallestFailedJobsByQueue :: common.repsWF(smallestFailedJobsByQueue[q])
-//@     invariant [storedJobsExist] forall q in smallestFailedJobsByQueue :: forall k in smallestFailedJobsByQueue[q].representatives :: allocated(smallestFailedJobsByQueue[q].representatives[k])
-//@     invariant [perQueueScope] forall q in smallestFailedJobsByQueue :: common.repsAllInQueue(smallestFailedJobsByQueue[q], q)
+//@     invariant [storedJobsExist] forall q in smallestFailedJobsByQueue :: forall k in smallestFailedJobsByQueue[q].representatives :: smallestFailedJobsByQueue[q].representatives[k] != nil && allocated(smallestFailedJobsByQueue[q].representatives[k])
+//@     invariant [perQueueScope] forall q in smallestFailedJobsByQueue :: forall k in smallestFailedJobsByQueue[q].representatives :: smallestFailedJobsByQueue[q].representatives[k].Queue == q
 //@   ensures [orderDrained] utils.orderEmpty(jobsOrderByQueues)
 //@ end
 // ---- end exec2 ----
